@@ -295,7 +295,7 @@ def eval_model(meta, cases, log):
             if rc != 0 or len(res) != n:
                 errors.append("%s: rc %d, %d/%d results: %s" % (name, rc, len(res), n, out[-600:]))
     log.append("== model evaluation: %d cases in %d shards, %d errors, %.1fs" % (len(todo), len(shards), len(errors), time.time() - t_ev))
-    return agree, errors, len(todo)
+    return agree, errors, len(agree)
 
 
 def paren(s):
